@@ -33,7 +33,7 @@ def string_program(rng, valid=True):
     for _ in range(rng.choice([2, 3, 5, 8, 14])):
         r, q, t = rng.randrange(4), rng.randrange(4), rng.randrange(4)
         op = rng.choice(["cz", "cl", "cs", "ca", "ca", "cn", "ci", "il", "ts", "ae", "as", "as", "pe", "ps", "ie", "ie", "ir", "ir",
-                         "ea", "ef", "er", "er", "sw", "ix", "ob", "ob", "ob"])
+                         "ea", "ef", "er", "er", "sw", "ix", "ob", "ob", "ob", "am", "am", "pm", "mv", "sa"])
         if op in ("cz", "cl", "cs", "ts"):
             bs, h = rand_text_hex(rng)
             parts.append("%s %d %s" % (op, r, h))
@@ -91,6 +91,19 @@ def string_program(rng, valid=True):
         elif op == "sw":
             parts.append("sw %d %d" % (r, q))
             size[r], size[q] = size[q], size[r]
+        elif op == "am":
+            parts.append("am %d %d %d" % (r, q, t))
+            size[r] += size[t]
+        elif op == "pm":
+            parts.append("pm %d %d %d" % (r, q, t))
+            size[r] = size[q] + size[t]
+        elif op == "mv":
+            parts.append("mv %d %d" % (r, q))
+            if r != q:
+                size[r] = size[q]
+                size[q] = 0
+        elif op == "sa":
+            parts.append("sa %d" % r)
         elif op == "ob":
             parts.append("ob %d" % r)        # to_string in mid-program: a cached text must not survive later edits
         elif op == "ix":
